@@ -145,6 +145,9 @@ pub struct Process {
     pub result: Option<Result<Value, crate::error::Error>>,
     pub select_state: Option<SelectState>,
     pub awaiting: HashMap<ProcessId, Option<Value>>,
+    /// Awaited processes known to have failed, with their error. Consulted when a select reaches
+    /// that process source (see `Executor::notify_failure`).
+    pub failed_awaits: HashMap<ProcessId, crate::error::Error>,
 }
 
 impl Process {
@@ -158,6 +161,7 @@ impl Process {
             result: None,
             select_state: None,
             awaiting: HashMap::new(),
+            failed_awaits: HashMap::new(),
         }
     }
 }
